@@ -147,6 +147,28 @@ func main() {
 	st3.ExpectViol = "SnapshotStable"
 	run.AddTLC(st3)
 	cases := h.Cases
+	// long random histories of the same machine (three slots, fourteen steps), walked by TLC's simulator
+	{
+		num := 150
+		if tier == "thorough" {
+			num = 3000
+		}
+		sim := core.MustTLC(core.TLCOpts{Spec: "Pools", Cfg: "Pools_sim.cfg", Workers: 1, Simulate: fmt.Sprintf("num=%d", num), Depth: 16, Seed: 1000 + run.Seed, Timeout: 10 * time.Minute})
+		ss := sim.Stat(fmt.Sprintf("random behaviours of the history machine (%d of 14 steps, three slots), replayed in full", num))
+		ss.Mode = "simulation"
+		run.AddTLC(ss)
+		long := 0
+		for _, c := range sim.Cases {
+			if strings.Count(c, `"op"`) >= 14 {
+				cases = append(cases, c)
+				long++
+			}
+		}
+		if long < num/2 {
+			core.Fatalf("Pools simulation produced only %d full-length histories", long)
+		}
+		run.Extra["long_random_histories"] = long
+	}
 	if tier == "thorough" {
 		// the histories are independent: eight child processes (each pinned to one thread, each with its own
 		// pools, which keep whatever the child's earlier histories left in them) take every eighth history
